@@ -566,3 +566,102 @@ func LemmaOperatorNamesDistinct(a, b Operator) {}
 // NameOf / OpNamed: the JSON operator name tables.
 func NameOf(op Operator) string { return toString[op] }
 func OpNamed(s string) Operator { return fromString[s] }
+
+// ---- JSON decoding (C13, C12) ------------------------------------------------------------------------
+
+// DLeaf: a leaf as the decoder builds it - a plain JSON value (or a column name),
+// nothing on the right; patterns are text.
+func DLeaf(e *Expression) bool {
+	if e == nil || !LeafOp(e.Op) || e.Right != nil || IsExpr(e.Left) {
+		return false
+	}
+	if _, isList := e.Left.([]*Expression); isList {
+		return false
+	}
+	if _, isB := e.Left.(*RangeBoundary); isB {
+		return false
+	}
+	if e.Op == Literal {
+		return true
+	}
+	_, isStr := e.Left.(string)
+	return isStr
+}
+
+// DValueLeaf: a leaf decoded from a JSON scalar: an int, a float64 or text.
+func DValueLeaf(e *Expression) bool {
+	if !DLeaf(e) {
+		return false
+	}
+	switch e.Left.(type) {
+	case string, int, float64, Column:
+		return true
+	}
+	return false
+}
+
+// DRight: what the decoder puts on the right of a node.
+func DRight(r any) bool {
+	if r == nil {
+		return true
+	}
+	if re, ok := r.(*Expression); ok {
+		return DShape(re)
+	}
+	b, ok := r.(*RangeBoundary)
+	if !ok || b == nil {
+		return false
+	}
+	mn, ok1 := b.Min.(*Expression)
+	mx, ok2 := b.Max.(*Expression)
+	return ok1 && ok2 && DLeaf(mn) && DLeaf(mx)
+}
+
+// DShape: every tree UnmarshalJSON can produce.
+func DShape(a any) bool {
+	e, ok := a.(*Expression)
+	if !ok || e == nil {
+		return false
+	}
+	if l, isList := e.Left.([]*Expression); isList {
+		return verifspec.Forall(0, len(l), func(i int) bool { return DValueLeaf(l[i]) }) && DRight(e.Right)
+	}
+	if le, isE := e.Left.(*Expression); isE {
+		return DShape(le) && DRight(e.Right)
+	}
+	return DLeaf(e)
+}
+
+//@ func unmarshalLiteral
+//@   props C13 C12
+//@   ensures e != nil
+//@   ensures err == nil ==> DValueLeaf(e)
+
+//@ func (*Expression).UnmarshalJSON
+//@   props C13 C12
+//@   fuel 2 DShape=2
+//@   ensures[decoded-shape] err == nil ==> DShape(e)
+//@   loop 0: rangeinv len(exprs) == idx && verifspec.Forall(0, idx, func(i int) bool { return DValueLeaf(exprs[i]) })
+
+// LemmaDecodedWF: decoded trees contain no typed-nil pointer.
+//
+//@ func LemmaDecodedWF
+//@   lemma
+//@   structural
+//@   props C13
+//@   fuel 2 DShape=2 WF=4 DRight=2
+//@   requires DShape(a)
+//@   ensures  WF(a)
+
+func LemmaDecodedWF(a any) {
+	e, ok := a.(*Expression)
+	if !ok || e == nil {
+		return
+	}
+	if le, isE := e.Left.(*Expression); isE {
+		LemmaDecodedWF(le)
+	}
+	if re, isE := e.Right.(*Expression); isE {
+		LemmaDecodedWF(re)
+	}
+}
